@@ -579,6 +579,25 @@ func c05bPartial(p *Pkg, rel string, out *[]c05bSite) {
 			}
 			return false
 		}
+		// a VERIFIED guard for index 0 / slice [1:]: a top-level `if len(base) == 0 { …; return … }` before the use. A comparison
+		// with nil (`if base == nil { return }`) is NOT one: an empty non-nil slice passes it.
+		zeroGuard := func(base string, pos token.Pos) bool {
+			for _, st := range fd.Body.List {
+				ifs, ok := st.(*ast.IfStmt)
+				if !ok || ifs.Pos() >= pos || ifs.Init != nil || len(ifs.Body.List) == 0 {
+					continue
+				}
+				if _, ret := ifs.Body.List[len(ifs.Body.List)-1].(*ast.ReturnStmt); !ret {
+					continue
+				}
+				if be, ok := ifs.Cond.(*ast.BinaryExpr); ok && be.Op == token.EQL && types.ExprString(be.Y) == "0" {
+					if call, ok := be.X.(*ast.CallExpr); ok && types.ExprString(call.Fun) == "len" && len(call.Args) == 1 && types.ExprString(call.Args[0]) == base {
+						return true
+					}
+				}
+			}
+			return false
+		}
 		add := func(pos token.Pos, kind, expr, cls string) {
 			file, line := c05bPos(p, pos, rel)
 			if dead && cls == "unguarded" {
@@ -603,6 +622,8 @@ func c05bPartial(p *Pkg, rel string, out *[]c05bSite) {
 					cls = "range-index"
 				} else if id, ok := x.Index.(*ast.Ident); ok && sized[base] != "" && rangeIdx[id.Name][sized[base]] {
 					cls = "range-index" // base = make(T, len(Y)) and the index ranges over Y
+				} else if zeroGuard(base, x.Pos()) && types.ExprString(x.Index) == "0" {
+					cls = "len-zero-return-guard" // `if len(base) == 0 { …; return }` earlier at the top level of the function
 				} else if lenLike(base, x.Pos()) {
 					cls = "len-mentioned"
 				} else if _, isArr := bt.Underlying().(*types.Array); isArr {
@@ -618,7 +639,9 @@ func c05bPartial(p *Pkg, rel string, out *[]c05bSite) {
 				}
 				base := types.ExprString(x.X)
 				cls := "unguarded"
-				if lenLike(base, x.Pos()) {
+				if zeroGuard(base, x.Pos()) && x.High == nil && x.Low != nil && types.ExprString(x.Low) == "1" {
+					cls = "len-zero-return-guard"
+				} else if lenLike(base, x.Pos()) {
 					cls = "len-mentioned"
 				} else if x.Low == nil && x.High == nil {
 					cls = "full-slice"
@@ -645,6 +668,8 @@ func c05bWrite(w *strings.Builder, pkgs map[string]*Pkg) {
 		c05bMapFieldFlows(pkgs[rel], rel, &flows)
 	}
 	c05bPartial(pkgs["cypher/models/pgsql/translate"], "cypher/models/pgsql/translate", &partial)
+	// pgsql/: parameter VALUES are inspected here (ValueToDataType, anySliceType, NegotiateValue, …)
+	c05bPartial(pkgs["cypher/models/pgsql"], "cypher/models/pgsql", &partial)
 	emit := func(name, doc string, sites []c05bSite) {
 		sort.SliceStable(sites, func(i, j int) bool {
 			if sites[i].file != sites[j].file {
@@ -674,6 +699,13 @@ func c05bWrite(w *strings.Builder, pkgs map[string]*Pkg) {
 			unguarded = append(unguarded, s)
 		}
 	}
+	var pgsqlSites []c05bSite
+	for _, s := range partial {
+		if strings.HasPrefix(s.file, "pgsql/") {
+			pgsqlSites = append(pgsqlSites, s)
+		}
+	}
+	emit("pgsqlPartialSites", "every partial operation of package pgsql (where parameter VALUES are inspected) with its guard class", pgsqlSites)
 	emit("unguardedPartialSites", "single-value type assertions, slice indexes and slice expressions in translate/ without a recognisable guard", unguarded)
 	w.WriteString("/-- all partial operations of translate/ by kind and guard class -/\ndef partialSiteCounts : List (String × Nat) := [")
 	for i, k := range sortedKeys(counts) {
